@@ -59,7 +59,20 @@ type CallRecord struct {
 	CrossHashes []common.Uint256
 	Tx          *types.Transaction
 	Panic       interface{}
+	// WriteSet is the transaction-level write buffer after the call (keys include the data-entry
+	// prefix byte; an empty value is a deletion), in key order. Filled for failed calls too
+	// (what the call had written before it failed and was discarded).
+	WriteSet []KV
 }
+
+// ExecHook, when set, replaces the single execution of a call: it may invoke run() several times
+// (every invocation starts from the same committed state, nothing is committed in between) and
+// returns the execution whose effects are then committed. Used by the determinism monitor (C16).
+var ExecHook func(e *Env, run func() (*CallRecord, *native.NativeService)) (*CallRecord, *native.NativeService)
+
+// Observer, when set, sees every finished call (after commit / discard). Used by cross-cutting
+// monitors (C17).
+var Observer func(e *Env, rec *CallRecord)
 
 // New creates an empty universe at the given network id (sets config.DefConfig.P2PNode.NetworkId,
 // which native code reads for main-net-only rules).
@@ -115,43 +128,60 @@ func (e *Env) CallAs(contract common.Address, method string, args []byte, addrs 
 
 // CallTx executes a prepared transaction the way HandleInvokeTransaction does.
 func (e *Env) CallTx(tx *types.Transaction, contract common.Address, method string, args []byte) *CallRecord {
-	rec := &CallRecord{Contract: contract, Method: method, Args: args, Height: e.Height, Time: e.Time, Tx: tx}
-	rec.Signers, _ = tx.GetSignatureAddresses()
-	e.Cache.Reset()
 	code := pk.InvokeCode(contract, method, args)
 	var blockHash common.Uint256
 	copy(blockHash[:], []byte(fmt.Sprintf("blk%029d", e.Height)))
-	svc, err := native.NewNativeService(e.Cache, tx, e.Time, e.Height, blockHash, e.ChainID, code, false)
-	if err != nil {
-		rec.Err = err.Error()
-		e.log(rec)
-		return rec
-	}
-	func() {
-		defer func() {
-			if p := recover(); p != nil {
-				rec.Panic = p
-				rec.Err = fmt.Sprintf("PANIC: %v", p)
-			}
-		}()
-		res, err := svc.Invoke()
+	run := func() (*CallRecord, *native.NativeService) {
+		rec := &CallRecord{Contract: contract, Method: method, Args: args, Height: e.Height, Time: e.Time, Tx: tx}
+		rec.Signers, _ = tx.GetSignatureAddresses()
+		e.Cache.Reset()
+		svc, err := native.NewNativeService(e.Cache, tx, e.Time, e.Height, blockHash, e.ChainID, code, false)
 		if err != nil {
 			rec.Err = err.Error()
-			return
+			return rec, nil
 		}
-		if b, ok := res.([]byte); ok {
-			rec.Result = b
+		func() {
+			defer func() {
+				if p := recover(); p != nil {
+					rec.Panic = p
+					rec.Err = fmt.Sprintf("PANIC: %v", p)
+				}
+			}()
+			res, err := svc.Invoke()
+			if err != nil {
+				rec.Err = err.Error()
+				return
+			}
+			if b, ok := res.([]byte); ok {
+				rec.Result = b
+			}
+			rec.Ok = true
+		}()
+		e.Cache.VerifWriteSet().ForEach(func(k, v []byte) {
+			rec.WriteSet = append(rec.WriteSet, KV{append([]byte{}, k...), append([]byte{}, v...)})
+		})
+		if rec.Ok {
+			rec.Notify = svc.GetNotify()
+			rec.CrossHashes = svc.GetCrossHashes()
 		}
-		rec.Ok = true
-	}()
-	if rec.Ok {
-		rec.Notify = svc.GetNotify()
-		rec.CrossHashes = svc.GetCrossHashes()
+		return rec, svc
+	}
+	var rec *CallRecord
+	var svc *native.NativeService
+	if ExecHook != nil {
+		rec, svc = ExecHook(e, run)
+	} else {
+		rec, svc = run()
+	}
+	if rec.Ok && svc != nil {
 		svc.GetCacheDB().Commit()
 	} else {
 		e.Cache.Reset()
 	}
 	e.log(rec)
+	if Observer != nil {
+		Observer(e, rec)
+	}
 	return rec
 }
 
